@@ -11,6 +11,9 @@ pub mod c06;
 pub mod c07;
 pub mod c11;
 pub mod c12;
+pub mod c13;
+pub mod c14;
+pub mod c15;
 pub mod common;
 
 #[derive(Clone, Copy, Debug, PartialEq, Eq)]
@@ -48,6 +51,9 @@ pub fn make(prop: &str, flavour: &str) -> Option<Box<dyn Monitor>> {
         "C07" => Some(Box::new(c07::C07::new())),
         "C11" => Some(Box::new(c11::C11::new(flavour))),
         "C12" => Some(Box::new(c12::C12::new())),
+        "C13" => Some(Box::new(c13::C13::new())),
+        "C14" => Some(Box::new(c14::C14::new())),
+        "C15" => Some(Box::new(c15::C15::new())),
         _ => None,
     }
 }
